@@ -328,10 +328,17 @@ impl CallStack {
             context_index = self.get_current_element_index() + 1;
         }
 
-        let context_element = self
-            .get_callstack_mut()
-            .get_mut((context_index - 1) as usize)
-            .unwrap();
+        // A context index that names no element of the call stack comes from
+        // a variable pointer of a malformed story document or save.
+        let context_element = usize::try_from(context_index as i64 - 1)
+            .ok()
+            .and_then(|i| self.get_callstack_mut().get_mut(i))
+            .ok_or_else(|| {
+                StoryError::InvalidStoryState(format!(
+                    "Could not find the call stack element {} to set the temporary variable: {}",
+                    context_index, name
+                ))
+            })?;
 
         if !declare_new && !context_element.temporary_variables.contains_key(&name) {
             return Err(StoryError::InvalidStoryState(format!(
@@ -377,8 +384,12 @@ impl CallStack {
             context_index = self.get_current_element_index() + 1;
         }
 
-        let context_element = self.get_callstack().get((context_index - 1) as usize);
-        let var_value = context_element.unwrap().temporary_variables.get(name);
+        // A context index that names no element of the call stack (from a
+        // variable pointer of a malformed story document or save) finds nothing.
+        let context_element = usize::try_from(context_index as i64 - 1)
+            .ok()
+            .and_then(|i| self.get_callstack().get(i))?;
+        let var_value = context_element.temporary_variables.get(name);
 
         var_value.cloned()
     }
